@@ -246,7 +246,7 @@ func runC16(c *ctxT) {
 		if pa, err := parse(cand); err == nil {
 			t2, _ := pa.MarshalText()
 			again, err2 := parse(t2)
-			okAgain := err2 == nil && reflect.DeepEqual(again, pa)
+			okAgain := err2 == nil && reflect.DeepEqual(again, pa) && !bytes.Contains(t2, []byte("invalid IP"))
 			obs = sx.L(sx.S("ok"), sx.B(t2), sx.Bool(okAgain))
 		}
 		c.emitNT(sx.L(sx.S("parse"), s.sx(), sx.B(cand)), obs, string(obs) != "(err)")
